@@ -26,7 +26,6 @@ import tempfile
 HERE = os.path.dirname(os.path.abspath(__file__))
 TOOLS = os.path.dirname(os.path.dirname(HERE))
 sys.path.insert(0, TOOLS)
-sys.path.insert(0, os.path.join(TOOLS, "gen"))
 import translate as T  # noqa: E402
 
 REPO = os.environ.get("OSACA_REPO", "/repo")
@@ -835,12 +834,10 @@ def fuzz(old_gen):
     """every single-node mutation (constants, comparison and binary operators, dropped arguments, `if` tests) of the
     three files: whatever the ORIGINAL plug-in noticed must be noticed by the new one, except mutations that are in
     fact harmless (operands of a commutative `+` swapped; a letter added to a character set that contains it)."""
-    import types
     lost, stats = [], {}
     tree_dir = make_tree({})
     saved = {}
     for gen, fn in list(GEN.items()) + [("old " + g, f) for g, f in old_gen.items()]:
-        mod = sys.modules.get(fn.__module__) or types.ModuleType("x")
         g = fn.__globals__
         if "_grammar_digests" in g:          # static sensitivity only; the digest would notice every grammar change
             saved[id(g)] = (g, g["_grammar_digests"])
